@@ -295,7 +295,7 @@ func VerifC17SioTime() {
 	default:
 		doAdd("t2", d2)
 	}
-	time.Sleep(2 * time.Second)
+	time.Sleep(1100 * time.Millisecond) // (delays are at most 500 ms each)
 	lg.Lock()
 	evs := append([]c17ev(nil), lg.evs...)
 	lg.Unlock()
